@@ -1,4 +1,4 @@
-import Rain.Lemmas.PersistStep
+import Rain.Lemmas.PersistSwitch
 import Rain.Props.Lsm
 import Rain.Props.Durable
 /-
@@ -14,7 +14,7 @@ accepted by the monitor, for every run — the semantic conditions FOLLOW from t
 and the image always recovers to exactly what the running instance reads.
 
 Quantifiers: every action list (any writes, rotations, flushes to any admissible level, table
-compactions with any admissible inputs and output cuts, trivial moves), every crash point between
+compactions with any admissible inputs and output cuts, trivial moves, manifest switches), every crash point between
 two filesystem operations of the resulting stream.
 -/
 namespace Rain.Props.Persist
@@ -26,12 +26,12 @@ theorem C02_step_accepted (p p' : PState) (a : PAction) (h : Rel p) (hs : pstep 
   unfold pstep at hs
   cases a with
   | write ops =>
-    simp only [PAction.toAction, step, if_true, Option.some.injEq] at hs
+    simp only [lsmStep, PAction.toAction?, step, if_true, Option.some.injEq] at hs
     subst hs
     have := write_ok h ops
     exact ⟨this.run, this.rel⟩
   | rotate w =>
-    simp only [PAction.toAction, step] at hs
+    simp only [lsmStep, PAction.toAction?, step] at hs
     split at hs
     · rename_i hx
       cases hst : stepRotate p.s with
@@ -48,7 +48,7 @@ theorem C02_step_accepted (p p' : PState) (a : PAction) (h : Rel p) (hs : pstep 
         exact ⟨this.run, this.rel⟩
     · cases hs
   | flush num lvl =>
-    simp only [PAction.toAction, step, if_true] at hs
+    simp only [lsmStep, PAction.toAction?, step, if_true] at hs
     cases hst : stepFlush p.s num lvl with
     | none => rw [hst] at hs; cases hs
     | some s' =>
@@ -58,7 +58,7 @@ theorem C02_step_accepted (p p' : PState) (a : PAction) (h : Rel p) (hs : pstep 
       have := flush_ok h num lvl s' hst
       exact ⟨this.run, this.rel⟩
   | compact c =>
-    simp only [PAction.toAction, step, if_true] at hs
+    simp only [lsmStep, PAction.toAction?, step, if_true] at hs
     cases hst : stepCompact p.s c with
     | none => rw [hst] at hs; cases hs
     | some s' =>
@@ -68,7 +68,7 @@ theorem C02_step_accepted (p p' : PState) (a : PAction) (h : Rel p) (hs : pstep 
       have := compact_ok h c s' hst
       exact ⟨this.run, this.rel⟩
   | trivialMove num lvl =>
-    simp only [PAction.toAction, step, if_true] at hs
+    simp only [lsmStep, PAction.toAction?, step, if_true] at hs
     cases hst : stepTrivialMove p.s num lvl with
     | none => rw [hst] at hs; cases hs
     | some s' =>
@@ -77,6 +77,19 @@ theorem C02_step_accepted (p p' : PState) (a : PAction) (h : Rel p) (hs : pstep 
       subst hs
       have := move_ok h num lvl s' hst
       exact ⟨this.run, this.rel⟩
+  | switchManifest m' =>
+    simp only [lsmStep, PAction.toAction?] at hs
+    split at hs
+    · rename_i hx
+      simp only [Option.some.injEq] at hs
+      subst hs
+      have hf : ∀ x ∈ p.d.manifests, x.1 < m' := by
+        intro x hx'
+        have := List.all_eq_true.mp hx x hx'
+        simpa using this
+      have := switch_ok h m' hf
+      exact ⟨this.run, this.rel⟩
+    · cases hs
 
 /-- **every run: the whole operation stream is accepted by the monitor** -/
 theorem C02_run_accepted (as : List PAction) (p p' : PState) (h : Rel p) (hr : prun p as = some p') :
@@ -104,8 +117,8 @@ theorem C02_image_is_what_is_read (p : PState) (h : Rel p) :
   rel_reads h
 
 theorem pstep_step {p p1 : PState} {a : PAction} (h : pstep p a = some p1) :
-    step p.s (PAction.toAction a) = some p1.s := by
-  cases hq : step p.s (PAction.toAction a) with
+    lsmStep p.s a = some p1.s := by
+  cases hq : lsmStep p.s a with
   | none =>
     unfold pstep at h
     rw [hq] at h
@@ -118,9 +131,12 @@ theorem pstep_step {p p1 : PState} {a : PAction} (h : pstep p a = some p1) :
       | (obtain ⟨_, h⟩ := h; subst h; rfl)
       | (subst h; rfl)
 
+/-- the LSM actions of a persisted run (a manifest switch is none) -/
+def lsmActions (as : List PAction) : List Action := as.filterMap PAction.toAction?
+
 /-- the LSM part of a persisted run is a run of the LSM model -/
 theorem prun_run (as : List PAction) (p p' : PState) (hr : prun p as = some p') :
-    run p.s (as.map PAction.toAction) = some p'.s := by
+    run p.s (lsmActions as) = some p'.s := by
   induction as generalizing p with
   | nil => simp only [prun, Option.some.injEq] at hr; subst hr; rfl
   | cons a rest ih =>
@@ -129,8 +145,20 @@ theorem prun_run (as : List PAction) (p p' : PState) (hr : prun p as = some p') 
     | none => rw [hst] at hr; cases hr
     | some p1 =>
       rw [hst] at hr
-      simp only [List.map_cons, run, pstep_step hst]
-      exact ih p1 hr
+      have hs1 := pstep_step hst
+      unfold lsmStep at hs1
+      unfold lsmActions
+      cases hta : a.toAction? with
+      | none =>
+        rw [hta] at hs1
+        simp only [Option.some.injEq] at hs1
+        simp only [List.filterMap_cons, hta]
+        rw [hs1]
+        exact ih p1 hr
+      | some x =>
+        rw [hta] at hs1
+        simp only [List.filterMap_cons, hta, run, hs1]
+        exact ih p1 hr
 
 /-- a freshly created database is in correspondence with the empty LSM state -/
 theorem fresh_rel (m w : Nat) : Rel (pinit m w) := by
@@ -161,7 +189,7 @@ theorem fresh_rel (m w : Nat) : Rel (pinit m w) := by
 most recent write of every key** -/
 theorem C02_persisted_image_holds_latest_writes (m w : Nat) (as : List PAction) (p : PState)
     (hr : prun (pinit m w) as = some p) :
-    ∃ r, recover p.d = some r ∧ ∀ k, latest r.entries k = specOf (as.map PAction.toAction) k := by
+    ∃ r, recover p.d = some r ∧ ∀ k, latest r.entries k = specOf (lsmActions as) k := by
   obtain ⟨_, hR⟩ := C02_run_accepted as (pinit m w) p (fresh_rel m w) hr
   obtain ⟨r, hrec, hl⟩ := rel_reads hR
   refine ⟨r, hrec, fun k => ?_⟩
@@ -188,11 +216,12 @@ theorem C02_persisted_every_crash_point_recovers (m w : Nat) (as : List PAction)
 
 private def exRun : List PAction :=
   [.write [([107], some [1]), ([108], some [2])], .rotate 3, .write [([110], none)], .flush 4 0,
-   .rotate 5, .flush 6 0, .trivialMove 4 0]
+   .rotate 5, .flush 6 0, .trivialMove 4 0, .switchManifest 7]
 
 example : (prun (pinit 1 2) exRun).isSome = true := by decide +kernel
-example : (streamOf (pinit 1 2) exRun).length = 11 := by decide +kernel
-example : ((prun (pinit 1 2) exRun).map fun p => (p.d.wals.map Prod.fst, p.d.tables.map Prod.fst)) =
-    some ([5], [4, 6]) := by decide +kernel
+example : (streamOf (pinit 1 2) exRun).length = 15 := by decide +kernel
+example : ((prun (pinit 1 2) exRun).map fun p =>
+      (p.d.current, p.d.manifests.map Prod.fst, p.d.wals.map Prod.fst, p.d.tables.map Prod.fst)) =
+    some (some 7, [7], [5], [4, 6]) := by decide +kernel
 
 end Rain.Props.Persist
